@@ -81,6 +81,7 @@ def build(verbose=False):
             n = os.path.basename(f)[:-2]
             cc(f, O('h_' + n))
         cc(os.path.join(HARNESS, 'stub_module.c'), O('h_stub_module_nopost'), ['-DVH_NO_POST_INIT'])
+        cc(os.path.join(HARNESS, 'stub_module.c'), O('h_stub_module_noctor'), ['-DVH_NO_CONSTRUCTOR'])
         with ThreadPoolExecutor(16) as ex:
             list(ex.map(lambda c: _run(c, log), jobs))
         libs = ['-levent', '-lm', '-ldl', '-lrt']
@@ -100,6 +101,7 @@ def build(verbose=False):
         links.append(ld + ['-shared', '-o', os.path.join(out, 'mods-wrapped', 'vh_driver.so'), O('h_vh_driver')])
         links.append(ld + ['-shared', '-o', os.path.join(out, 'stubs', 'stub.so'), O('h_stub_module')])
         links.append(ld + ['-shared', '-o', os.path.join(out, 'stubs', 'stub_nopost.so'), O('h_stub_module_nopost')])
+        links.append(ld + ['-shared', '-o', os.path.join(out, 'stubs', 'stub_noctor.so'), O('h_stub_module_noctor')])
         # E2: library layer driven directly
         e2 = [O('h_' + os.path.basename(f)[:-2]) for f in glob.glob(os.path.join(HARNESS, 'e2_*.c'))]
         links.append(ld + ['-rdynamic', '-o', os.path.join(out, 'core_vh')] + core_objs + [O('iauth_misc')] + e2 + libs)
